@@ -388,6 +388,16 @@ func runRT(c RTCase, rec *h.Rec) error {
 
 	nRaw, nDom := h.InfNorm(raw), h.InfNorm(dom)
 	okRaw, okDom := nRaw.Cmp(bBig) <= 0, nDom.Cmp(bBig) <= 0
+	// Since b3d8830 every *Ciphertext path honours the flag as documented ("the ciphertext is in the Montgomery domain"):
+	// flag set => the encryption of zero is in the Montgomery domain (error small after IMForm), flag clear => raw.
+	if wantOK, otherOK := okRaw, okDom; discriminates {
+		if wantMeta.IsMontgomery {
+			wantOK, otherOK = okDom, okRaw
+		}
+		if !wantOK && otherOK {
+			return h.Failf(fmt.Sprintf("C03:%s:montgomery-flag-not-honoured", path), "IsMontgomery=%v but the error is small only under the other reading: |D|_inf = %s (raw) / %s (after IMForm), bound %s", wantMeta.IsMontgomery, nRaw, nDom, bBig)
+		}
+	}
 	switch {
 	case okRaw && okDom:
 		rec.Class("mont=both")
@@ -397,10 +407,14 @@ func runRT(c RTCase, rec *h.Rec) error {
 		rec.Class("mont=domain")
 	default:
 		key := kbase + fmt.Sprintf(":degree%d:noise-above-bound", c.Degree)
-		if sparseErrClass(c.Spec, isNTT, path) {
+		if c.Degree == 2 && c.Dirty {
+			key = keyDegree2Stale
+		} else if path == "sk" && c.Degree == 2 && !isNTT {
+			key = keySkDegree2Coeff
+		} else if sparseErrClass(c.Spec, isNTT, path) {
 			key = keySparseErr
 		} else if path == "sk" && c.Degree == 2 {
-			// one input class whatever the entry point: the secret-key path writes the mask c1 into a buffer
+			// one input class whatever the entry point: the secret-key path wrote the mask c1 into a buffer (fixed e5d2496)
 			key = keySkDegree2
 		}
 		msg := fmt.Sprintf("|Dec(Enc(pt))-pt|_inf = %s (raw) / %s (Montgomery reading), bound %s, Q(level %d) has %d bits", nRaw, nDom, bBig, outLevel, Q.BitLen())
@@ -464,12 +478,12 @@ func runRT(c RTCase, rec *h.Rec) error {
 	raw2, dom2, _ := diffCentred(ringOut, out2.Value, ref, isNTT)
 	if h.InfNorm(raw2).Cmp(bBig) > 0 && h.InfNorm(dom2).Cmp(bBig) > 0 {
 		key := kbase + ":repeat:noise-above-bound"
-		if sparseErrClass(c.Spec, isNTT, path) {
-			key = keySparseErr
+		if c.Degree == 2 && c.Dirty {
+			key = keyDegree2Stale
 		} else if path == "sk" && c.Degree == 2 && !isNTT {
 			key = keySkDegree2Coeff
-		} else if c.Degree == 2 && c.Dirty {
-			key = keyDegree2Stale
+		} else if sparseErrClass(c.Spec, isNTT, path) {
+			key = keySparseErr
 		}
 		msg := fmt.Sprintf("second encryption: |Dec-pt|_inf = %s / %s, bound %s", h.InfNorm(raw2), h.InfNorm(dom2), bBig)
 		if rec.Known(key, msg) {
@@ -478,7 +492,7 @@ func runRT(c RTCase, rec *h.Rec) error {
 		}
 		return h.Failf(key, "%s", msg)
 	}
-	if sparseErrClass(c.Spec, isNTT, path) {
+	if sparseErrClass(c.Spec, isNTT, path) && h.IsKnown(keySparseErr) {
 		// both encryptions happened to land inside the bound; the remaining sub-oracles are not meaningful for this class
 		rec.Classf("known-class-passed=%s", keySparseErr)
 		return nil
